@@ -137,7 +137,7 @@ def _make_connection(acc):
     return conn
 
 
-async def _coap_api(rng, api, items, bad_ctl):
+async def _coap_api(rng, api, items, bad_ctl, form=None):
     """Run one batch through the public connection API.  Returns (problem or None, request tids)."""
     acc = D.CoapAccessory(KEY_W, KEY_R)
     acc.bad_ctl = bad_ctl
@@ -152,7 +152,8 @@ async def _coap_api(rng, api, items, bad_ctl):
     values = [bytes(rng.randrange(256) for _ in range(rng.choice([1, 4, 300]))) for _ in items]
     if api == "read":
         # the parameter is declared Iterable[tuple[int, int]]: list, tuple and a one-shot iterator are all legal
-        form = rng.choice(["list", "tuple", "iterator"])
+        form = form or rng.choice(["list", "tuple", "iterator"])
+        _coap_api.last_form = form
         res = await conn.read_characteristics({"list": ids, "tuple": tuple(ids), "iterator": iter(ids)}[form])
     elif api == "write":
         res = await conn.write_characteristics([(a, i, v) for (a, i), v in zip(ids, values)])
@@ -165,7 +166,8 @@ async def _coap_api(rng, api, items, bad_ctl):
     # request: one item per characteristic, in order, with the right instance ids and data
     if [r[3] for r in req] != [i for _, i in ids]:
         prob = (f"request items carry iids {[r[3] for r in req]}, requested {[i for _, i in ids]}"
-                + (f" (characteristics passed as {form})" if api == "read" else ""))
+                + (f" (characteristics passed as {form})" if api == "read" else "")
+                + (" - empty request from a one-shot iterable" if api == "read" and form == "iterator" and not req else ""))
     if api == "write" and prob is None:
         if [r[4] for r in req] != [D.value_tlv(v) for v in values]:
             prob = "write request data is not the value TLV of the i-th value"
@@ -196,6 +198,88 @@ async def _coap_api(rng, api, items, bad_ctl):
     if extra and prob is None:
         prob = f"result has entries for characteristics that were not requested: {sorted(extra)}"
     return prob, vec, [r[2] for r in req], bodies
+
+
+async def _run_case(ctx, rng, c, st):
+    """Run one exported case on the real code; verdicts against the specification's expectation (and records for Pdu_Trace)."""
+    from aiohomekit.controller.coap.pdu import decode_all_pdus
+    recs, fail, layout_diff, ncoap, sampled = st["recs"], st["fail"], st["layout_diff"], st["ncoap"], st["sampled"]
+    part = c["part"]
+    if part == "req":
+        p, enc, n, ctr0 = c["p"], c["enc"], c["n"], c["ctr0"]
+        ctx.case(("req", p, enc, n, ctr0) if n else None)
+        gatt, opcode, iid, body, outcome, _ = await _ble_run(rng, p, enc, n, ctr0)
+        rec = _req_record(gatt, opcode, iid, body, p, enc, n, ctr0)
+        recs.append(rec)
+        if [f[8] for f in rec["frags"]] != c["lens"]:
+            layout_diff[0] += 1            # allowed by the property; the accessory model decides
+        if outcome[:2] != ("done", 0) or outcome[2] != b"":
+            fail(("req-result", enc), f"ble_request did not return the accessory's (success, empty) answer after a "
+                 f"request with p={p} enc={enc} n={n}: {outcome[0]} {outcome[2][:80]!r}", {"case": c})
+        if "req" not in sampled and n > 2 * p:
+            sampled.add("req")
+            ctx.sample({"ble_request_case": c, "observed_fragments": rec["frags"][:4]})
+    elif part == "resp":
+        ctx.case(("resp", c["m"], c["st"], c["short"], tuple(c["split"]), c["fault"], c["fpos"], c["enc"], c["ctr0"]))
+        body = bytes(rng.randrange(256) for _ in range(c["m"]))
+        gatt, _, _, _, outcome, kctr = await _ble_run(rng, rng.choice([20, 64, 155]), c["enc"], 0, c["ctr0"], c, body)
+        if len(recs) % 4 == 0:
+            recs.append(_resp_record(c, outcome, gatt.reads, kctr, body))
+        exp = c["exp"]
+        ok = outcome[0] == exp and (exp != "done" or (outcome[1] == c["st"] and outcome[2] == body))
+        if not ok:
+            fail(("resp", c["fault"], exp, outcome[0]),
+                 f"response m={c['m']} status={c['st']} split={c['split'][:8]} fault={c['fault']}@{c['fpos']} enc={c['enc']}: "
+                 f"specification says {exp}, the code {outcome[0]}"
+                 + (f" (status {outcome[1]}, body {'equal' if outcome[2] == body else 'DIFFERENT'})" if outcome[0] == "done" else
+                    f" ({outcome[2][:80]!r})"), {"case": c})
+        else:
+            ctx.trace_ok()
+        if "resp" not in sampled and c["fault"] == "flag_cont":
+            sampled.add("resp")
+            ctx.sample({"ble_response_case": c, "observed": outcome[0]})
+    else:
+        items = [tuple(it) for it in c["items"]]
+        ctx.case(("coap", tuple(items)))
+        want = _expected_vec(c["exp"])
+        bad_ctl = rng.choice([0x00, 0x04, 0x06, 0x08, 0x0C, 0x0E])
+        # (1) the batch decoder on an independently written response
+        bodies = _coap_bodies(rng, items, tlv=False)
+        wire = _coap_wire(bodies, bad_ctl)
+        try:
+            res = decode_all_pdus(0, wire)
+            got = [_classify(r, bodies, i) for i, r in enumerate(res)]
+        except Exception as ex:  # noqa: BLE001
+            got = f"{type(ex).__name__}: {ex}"
+        if got != want:
+            fail(("coap-decode", _shape(items)), f"decode_all_pdus on items {items}: got {got}, specification {want}",
+                 {"case": c, "bad_ctl": bad_ctl})
+        else:
+            ctx.trace_ok()
+        ncoap[0] += 1
+        # (2) the public API path
+        api = st.get("api") or ("read", "read", "write", "subscribe", "unsubscribe")[ncoap[0] % 5]
+        try:
+            prob, vec, tids, _ = await _coap_api(rng, api, items, bad_ctl, st.get("form"))
+        except Exception as ex:  # noqa: BLE001
+            prob, vec, tids = f"{type(ex).__name__}: {ex}", None, None
+        if prob is None:
+            wantv = want if api == "read" else [[k, 0, i + 1, 0] if k == "ok" else [k, 0, 0, 0] for i, (k, _, _, _) in enumerate(want)]
+            if vec != wantv:
+                prob = f"result vector {vec}, specification {wantv}"
+        if prob is None and api == "read":
+            recs.append({"part": "coap", "items": [list(it) for it in items], "reqtids": tids, "res": vec})
+        if prob:
+            fail(("coap-api", api, "request" if prob.startswith("request items") else _shape(items)),
+                 f"{api} of a batch with items {items}: {prob}",
+             {"case": c, "api": api, "bad_ctl": bad_ctl, "form": getattr(_coap_api, "last_form", None) if api == "read" else None},
+                 signature=SIG_ITER if "empty request from a one-shot iterable" in prob else None)
+        else:
+            ctx.trace_ok()
+        if "coap" not in sampled and len(items) == 3 and {"ok", "tid", "err"} <= {it[0] for it in items}:
+            sampled.add("coap")
+            ctx.sample({"coap_case": c, "api": api, "observed": vec})
+
 
 
 # ------------------------------------------------------------------ the check
@@ -236,83 +320,11 @@ def run(ctx):
         layout_diff = [0]
         ncoap = [0]
 
+        st = {"recs": recs, "fail": fail, "layout_diff": layout_diff, "ncoap": ncoap, "sampled": set()}
+
         async def replay_all():
-            sampled = set()
             for c in cases:
-                part = c["part"]
-                if part == "req":
-                    p, enc, n, ctr0 = c["p"], c["enc"], c["n"], c["ctr0"]
-                    ctx.case(("req", p, enc, n, ctr0) if n else None)
-                    gatt, opcode, iid, body, outcome, _ = await _ble_run(rng, p, enc, n, ctr0)
-                    rec = _req_record(gatt, opcode, iid, body, p, enc, n, ctr0)
-                    recs.append(rec)
-                    if [f[8] for f in rec["frags"]] != c["lens"]:
-                        layout_diff[0] += 1            # allowed by the property; the accessory model decides
-                    if outcome[:2] != ("done", 0) or outcome[2] != b"":
-                        fail(("req-result", enc), f"ble_request did not return the accessory's (success, empty) answer after a "
-                             f"request with p={p} enc={enc} n={n}: {outcome[0]} {outcome[2][:80]!r}", {"case": c})
-                    if "req" not in sampled and n > 2 * p:
-                        sampled.add("req")
-                        ctx.sample({"ble_request_case": c, "observed_fragments": rec["frags"][:4]})
-                elif part == "resp":
-                    ctx.case(("resp", c["m"], c["st"], c["short"], tuple(c["split"]), c["fault"], c["fpos"], c["enc"], c["ctr0"]))
-                    body = bytes(rng.randrange(256) for _ in range(c["m"]))
-                    gatt, _, _, _, outcome, kctr = await _ble_run(rng, rng.choice([20, 64, 155]), c["enc"], 0, c["ctr0"], c, body)
-                    if len(recs) % 4 == 0:
-                        recs.append(_resp_record(c, outcome, gatt.reads, kctr, body))
-                    exp = c["exp"]
-                    ok = outcome[0] == exp and (exp != "done" or (outcome[1] == c["st"] and outcome[2] == body))
-                    if not ok:
-                        fail(("resp", c["fault"], exp, outcome[0]),
-                             f"response m={c['m']} status={c['st']} split={c['split'][:8]} fault={c['fault']}@{c['fpos']} enc={c['enc']}: "
-                             f"specification says {exp}, the code {outcome[0]}"
-                             + (f" (status {outcome[1]}, body {'equal' if outcome[2] == body else 'DIFFERENT'})" if outcome[0] == "done" else
-                                f" ({outcome[2][:80]!r})"), {"case": c})
-                    else:
-                        ctx.trace_ok()
-                    if "resp" not in sampled and c["fault"] == "flag_cont":
-                        sampled.add("resp")
-                        ctx.sample({"ble_response_case": c, "observed": outcome[0]})
-                else:
-                    items = [tuple(it) for it in c["items"]]
-                    ctx.case(("coap", tuple(items)))
-                    want = _expected_vec(c["exp"])
-                    bad_ctl = rng.choice([0x00, 0x04, 0x06, 0x08, 0x0C, 0x0E])
-                    # (1) the batch decoder on an independently written response
-                    bodies = _coap_bodies(rng, items, tlv=False)
-                    wire = _coap_wire(bodies, bad_ctl)
-                    try:
-                        res = decode_all_pdus(0, wire)
-                        got = [_classify(r, bodies, i) for i, r in enumerate(res)]
-                    except Exception as ex:  # noqa: BLE001
-                        got = f"{type(ex).__name__}: {ex}"
-                    if got != want:
-                        fail(("coap-decode", _shape(items)), f"decode_all_pdus on items {items}: got {got}, specification {want}",
-                             {"case": c, "bad_ctl": bad_ctl})
-                    else:
-                        ctx.trace_ok()
-                    ncoap[0] += 1
-                    # (2) the public API path
-                    api = ("read", "read", "write", "subscribe", "unsubscribe")[ncoap[0] % 5]
-                    try:
-                        prob, vec, tids, _ = await _coap_api(rng, api, items, bad_ctl)
-                    except Exception as ex:  # noqa: BLE001
-                        prob, vec, tids = f"{type(ex).__name__}: {ex}", None, None
-                    if prob is None:
-                        wantv = want if api == "read" else [[k, 0, i + 1, 0] if k == "ok" else [k, 0, 0, 0] for i, (k, _, _, _) in enumerate(want)]
-                        if vec != wantv:
-                            prob = f"result vector {vec}, specification {wantv}"
-                    if prob is None and api == "read":
-                        recs.append({"part": "coap", "items": [list(it) for it in items], "reqtids": tids, "res": vec})
-                    if prob:
-                        fail(("coap-api", api, "request" if prob.startswith("request items") else _shape(items)),
-                             f"{api} of a batch with items {items}: {prob}", {"case": c, "api": api, "bad_ctl": bad_ctl},
-                             signature=SIG_ITER if "passed as iterator" in prob else None)
-                    else:
-                        ctx.trace_ok()
-                    if "coap" not in sampled and len(items) == 3 and {"ok", "tid", "err"} <= {it[0] for it in items}:
-                        sampled.add("coap")
-                        ctx.sample({"coap_case": c, "api": api, "observed": vec})
+                await _run_case(ctx, rng, c, st)
 
         import time as _t
         t0 = _t.time()
@@ -375,7 +387,8 @@ def run(ctx):
                         continue
                     if prob:
                         fail(("coap-api", "read", "request"), f"read of {items}: {prob}", {"items": items},
-                             signature=SIG_ITER if "passed as iterator" in prob else None)
+                             signature=SIG_ITER if "empty request from a one-shot iterable" in prob else None)
+                        continue
                     recs.append({"part": "coap", "items": [list(it) for it in items], "reqtids": tids, "res": vec})
                 else:
                     # request side: the real encode_all_pdus, parsed by the independent reader
@@ -425,47 +438,78 @@ def _rec_class(r):
         return ("req", r["enc"], r["n"] == 0, len(r["frags"]) > 1)
     if r["part"] == "resp":
         return ("resp", r["fault"], r["enc"], r["short"], r["out"])
-    return ("coap", _shape([tuple(i) for i in r["items"]]), len(r["items"]))
+    return ("coap", "request-shape" if len(r["reqtids"]) != len(r["items"]) else "result-vector")
 
 
 def _validate(ctx, tmp, recs, fail):
+    """All recorded executions through Pdu_Trace in one TLC run; the module also exports the verdict of every
+    rejected record (postcondition), so a failing tree is reported completely."""
     from harness import tlc as T
+    if not recs:
+        return
     tf = os.path.join(tmp, "trace.ndjson")
-    total = len(recs)
-    rejected = 0
-    for rnd in range(8):
-        if not recs:
-            break
-        with open(tf, "w") as f:
-            for r in recs:
-                f.write(json.dumps(r) + "\n")
-        if os.environ.get("VERIF_DEBUG_KEEP"):
-            shutil.copy(tf, os.environ["VERIF_DEBUG_KEEP"])
-        res = ctx.tlc("codec/Pdu_Trace", "Pdu_Trace.cfg", env={"TRACE_FILE": tf, **JVM}, expect_violation=True,
-                      require_cover=False, timeout=1500, label=f"trace validation of recorded runs (round {rnd + 1})")
-        if res.ok:
-            break
-        ce = T.parse_counterexample(res.violation["trace"])
-        tid = ce[-1][1].get("tid") if ce else None
-        if not isinstance(tid, int):
-            raise MachineryError(f"trace validation failed without a record id: {res.violation['name']}")
-        bad = recs[tid - 1]
-        cls = _rec_class(bad)
-        same = [r for r in recs if _rec_class(r) == cls]
-        fail(("trace", res.violation["name"], cls),
-             f"recorded execution rejected by Pdu_Trace ({res.violation['name']}): {json.dumps(bad)[:600]}",
-             {"record": bad, "invariant": res.violation["name"]})
-        rejected += len(same)
-        recs = [r for r in recs if _rec_class(r) != cls]
+    vf = os.path.join(tmp, "verdicts.ndjson")
+    with open(tf, "w") as f:
+        for r in recs:
+            f.write(json.dumps(r) + "\n")
+    if os.environ.get("VERIF_DEBUG_KEEP"):
+        shutil.copy(tf, os.environ["VERIF_DEBUG_KEEP"])
+    res = ctx.tlc("codec/Pdu_Trace", "Pdu_Trace.cfg", env={"TRACE_FILE": tf, "VERDICTS_OUT": vf, **JVM}, expect_violation=True,
+                  require_cover=False, timeout=1500, label="trace validation of recorded runs")
+    rejected = [json.loads(line)["tid"] for line in open(vf) if line.strip()] if os.path.exists(vf) else []
+    if res.ok:
+        if rejected:
+            raise MachineryError("Pdu_Trace accepted every record but exported rejected ones")
+        ctx.trace_ok(len(recs))
     else:
-        raise MachineryError("trace validation: more than 8 distinct classes of rejected records")
-    ctx.trace_ok(total - rejected)
-    if recs:
-        ctx.sample({"trace_record": recs[len(recs) // 3]})
+        first = None
+        ce = T.parse_counterexample(res.violation["trace"])
+        if ce and isinstance(ce[-1][1].get("tid"), int):
+            first = ce[-1][1]["tid"]
+        if first is not None and first not in rejected:
+            rejected.append(first)
+        if not rejected:
+            raise MachineryError(f"trace validation failed without a record id: {res.violation['name']}")
+        for t in rejected:
+            bad = recs[t - 1]
+            fail(("trace", _rec_class(bad)),
+                 f"recorded execution rejected by Pdu_Trace"
+                 + (f" ({res.violation['name']})" if t == first else "") + f": {json.dumps(bad)[:600]}", {"record": bad})
+        ctx.trace_ok(len(recs) - len(rejected))
+    ctx.sample({"trace_record": recs[len(recs) // 3]})
 
 
 def _replay_file(ctx):
-    """./check C17 --replay <file>: run the stored case again on the real code."""
+    """./check C17 --replay <file>: run the stored case / record again."""
     data = json.load(open(ctx.replay))["replay"]
-    print("replay:", json.dumps(data)[:400])
-    print("replay: run ./check C17 (the stored case is part of the enumerated space or of the seeded driver)")
+    random.seed(ctx.seed)
+    logging.disable(logging.WARNING)
+    groups = {}
+
+    def fail(key, what, replay, signature=None):
+        groups.setdefault(key, {"what": what, "replay": replay, "sig": signature})
+    recs = []
+    st = {"recs": recs, "fail": fail, "layout_diff": [0], "ncoap": [0], "sampled": {"req", "resp", "coap"}}
+    tmp = tempfile.mkdtemp(prefix="c17_")
+    try:
+        if "case" in data:
+            c = data["case"]
+            if data.get("api"):
+                st["api"], st["form"] = data["api"], data.get("form")
+                asyncio.run(_run_case(ctx, ctx.rng, c, st))
+            else:
+                for k in range(5 if c["part"] == "coap" else 1):       # coap: one run per API path
+                    st["ncoap"][0] = k
+                    asyncio.run(_run_case(ctx, ctx.rng, c, st))
+        elif "record" in data:
+            recs.append(data["record"])
+            print("replay: re-validating the stored record against Pdu_Trace (the execution itself is re-run by ./check C17)")
+        else:
+            print("replay: case drawn by the seeded driver; run ./check C17 --seed", ctx.seed)
+            return
+        _validate(ctx, tmp, recs, fail)
+    finally:
+        shutil.rmtree(tmp, ignore_errors=True)
+    print(f"replay: {json.dumps(data.get('case') or data.get('record'))[:300]} -> {'VIOLATION' if groups else 'ok'}")
+    for key, g in groups.items():
+        ctx.violation(g["what"], {"kind": "pdu_case", "key": list(key), **g["replay"]}, signature=g["sig"])
